@@ -265,15 +265,16 @@ def offsets_ok(d, s, o):
 
 
 def lean_guard(dumps, op):
-    """python mirror of `GuardedOp s op ∧ AlignedOp op` (Proofs/HistLemmas.lean, Proofs/HistMeaning.lean)"""
+    """python mirror of `GuardedOpW s op ∧ AlignedOpW op` (Proofs/HistWideLemmas.lean): no guard on deletions and
+    subsets (repeated / negative indices), an object extended with itself needs a diagonal identity map"""
     k = op["k"]
     if k == "construct":
         return wf_dump(op["a"]) and aligned_dump(op["a"])
-    if k == "delete":
-        return len(set(op["idx"])) == len(op["idx"])
     if k == "extend":
         g = lambda i: dumps[i] if 0 <= i < len(dumps) else None
         d, sd = g(op["dst"]), g(op["src"])
+        if op["dst"] == op["src"] and any(a != b for a, b in op["map"]):
+            return False
         if d is None or sd is None:
             return True
         return compat(d, sd) if op.get("offsets") is None else offsets_ok(d, sd, op["offsets"])
@@ -291,7 +292,7 @@ def guard_ok(dumps, op):
         if d is None:
             return False
         if k == "getitem":
-            return bool(op["idx"]) and all(0 <= i < len(d["atoms"]) for i in op["idx"])
+            return bool(op["idx"]) and all(-len(d["atoms"]) <= i < len(d["atoms"]) for i in op["idx"])
         if k == "replicate":
             return d["cell"] is not None
         return True
@@ -301,11 +302,14 @@ def guard_ok(dumps, op):
             return False
         if k == "pop":
             return len(d["atoms"]) > 0
-        return len(set(op["idx"])) == len(op["idx"]) and all(0 <= i < len(d["atoms"]) for i in op["idx"])
+        # any integers in [-n, n): the code normalises them to a set of positions (negative, repeated, unsorted)
+        return all(-len(d["atoms"]) <= i < len(d["atoms"]) for i in op["idx"])
     if k == "extend":
         d, sd = g(op["dst"]), g(op["src"])
-        if d is None or sd is None or op["dst"] == op["src"]:
+        if d is None or sd is None:
             return False
+        if op["dst"] == op["src"] and any(a != b for a, b in op["map"]):
+            return False       # an object extended with itself: only "atom k is atom k" respects the map's contract
         keys = [a for a, _ in op["map"]]
         vals = [b for _, b in op["map"]]
         if len(set(keys)) != len(keys) or len(set(vals)) != len(vals):
@@ -850,6 +854,14 @@ def enum_ops(dumps, depth_left):
         for idx in [[i] for i in range(min(n0, 3))] + ([list(range(n0))] if n0 > 1 else []):
             out.append({"k": "getitem", "src": 0, "dst": 2, "idx": idx})
     out.append({"k": "copy", "src": 0, "dst": 2})
+    # widened index conventions: negative / repeated integers in a deletion or subset, the object extended with
+    # itself — as LAST op of a sequence only (they reach states the other ops reach too; keeps the tree size)
+    if n0 and depth_left == 1:
+        out.append({"k": "delete", "slot": 0, "idx": [-1, n0 - 1, -1]})
+        out.append({"k": "getitem", "src": 0, "dst": 2, "idx": [-1, 0, -1]})
+        if 2 * n0 <= 12:
+            out.append({"k": "extend", "dst": 0, "src": 0, "offsets": None, "map": []})
+            out.append({"k": "extend", "dst": 0, "src": 0, "offsets": None, "map": [[n0 - 1, n0 - 1]]})
     return out
 
 
@@ -908,14 +920,27 @@ def rand_op(rng, run, tg, last_offsets):
         else:
             idx = rng.sample(range(n), rng.randint(1, max(1, min(n, 1 + n // 3))))
         rng.shuffle(idx)
+        u = rng.random()
+        if u < 0.35:        # numpy spelling of the same positions: k or k - n
+            idx = [i - n if rng.random() < 0.5 else i for i in idx]
+        if u < 0.12:        # a repeated position (possibly in the other spelling)
+            k = rng.choice(idx)
+            idx.insert(rng.randrange(len(idx) + 1), rng.choice([k, k % n, k % n - n]))
         return {"k": "delete", "slot": s, "idx": idx}
     if kind == "pop":
         if n == 0:
             return None
         if rng.random() < 0.4:
             return {"k": "pop", "slot": s, "i": -1, "default": True}
+        if rng.random() < 0.3:      # positions outside [-n, n) are folded by the code (pos % n), not rejected
+            return {"k": "pop", "slot": s, "i": rng.choice([rng.randint(-4 * n, 4 * n), n, -n - 1])}
         return {"k": "pop", "slot": s, "i": rng.randint(-n, n - 1)}
     if kind == "extend":
+        if n and 2 * n <= MAXATOMS and rng.random() < 0.12:
+            # the object extended with ITSELF; only diagonal identity maps ("atom k is atom k") are inside the quantifier
+            keys = rng.sample(range(n), rng.choice([0, 0, 1, min(2, n), n]))
+            return {"k": "extend", "dst": s, "src": s, "offsets": rng.choice([None, None, [0, 0, 0, 0, 0]]),
+                    "map": [[k, k] for k in keys]}
         others = [i for i in full if i != s]
         if not others:
             return None
@@ -955,6 +980,8 @@ def rand_op(rng, run, tg, last_offsets):
         idx = rng.sample(range(n), rng.randint(1, n))
         if rng.random() < 0.15:
             idx.append(rng.choice(idx))
+        if rng.random() < 0.4:      # np.take wraps negative integers: any of them may be written as i - n
+            idx = [i - n if rng.random() < 0.5 else i for i in idx]
         return {"k": "getitem", "src": s, "dst": rng.randrange(NSLOTS), "idx": idx}
     return None
 
@@ -1046,7 +1073,8 @@ def malformed(rng, count):
         b = rand_struct(rng, tg, nmax=4)
         na, nb = len(a["atoms"]), len(b["atoms"])
         ops = [{"k": "construct", "dst": 0, "a": a}, {"k": "construct", "dst": 1, "a": b}]
-        c = rng.choice(["incompat", "incompat", "delete_oob", "map_oob_key", "map_oob_val", "nocell", "getitem_oob", "empty_slot"])
+        c = rng.choice(["incompat", "incompat", "delete_oob", "map_oob_key", "map_oob_val", "nocell", "getitem_oob", "empty_slot",
+                        "delete_dup", "delete_dup", "self_chain", "self_chain", "getitem_neg_oob"])
         if c == "incompat":
             ops.append({"k": "extend", "dst": 0, "src": 1, "offsets": None, "map": rand_map(rng, nb, na)})
             ops.append({"k": "copy", "src": 0, "dst": 2})
@@ -1054,6 +1082,22 @@ def malformed(rng, count):
                 c = "compat"
         elif c == "delete_oob":
             ops.append({"k": "delete", "slot": 0, "idx": [na + rng.randint(0, 2)]})
+        elif c == "delete_dup":      # repeated indices: survivors are lowered once per repetition (model = code)
+            k = rng.randrange(na)
+            ops.append({"k": "delete", "slot": 0, "idx": [k, rng.randrange(na), k]})
+            ops.append({"k": "copy", "src": 0, "dst": 2})
+        elif c == "self_chain":      # a.extend(a, map) with a non-diagonal map: the code reads types it has just written
+            if na < 2:
+                a = rand_struct(rng, tg, nmax=5)
+                while len(a["atoms"]) < 2:
+                    a = rand_struct(rng, tg, nmax=5)
+                na = len(a["atoms"])
+                ops[0] = {"k": "construct", "dst": 0, "a": a}
+            ks = rng.sample(range(na), rng.randint(2, min(3, na)))
+            ops.append({"k": "extend", "dst": 0, "src": 0, "offsets": None, "map": [[ks[i], ks[(i + 1) % len(ks)]] for i in range(len(ks))]})
+            ops.append({"k": "copy", "src": 0, "dst": 2})
+        elif c == "getitem_neg_oob":
+            ops.append({"k": "getitem", "src": 0, "dst": 2, "idx": [-1, -na - 1]})
         elif c == "map_oob_key":
             ops.append({"k": "extend", "dst": 0, "src": 1, "offsets": None, "map": [[nb + rng.randint(0, 1), 0]]})
         elif c == "map_oob_val":
@@ -1482,6 +1526,33 @@ def stream_misaligned(ctx, count, compare=True):
 
 
 
+
+# =============================================================================================== negative-index deletion
+
+def stream_negative_delete(ctx, count, compare=True):
+    """directed: `del a[idx]` with negative valid indices (all of them spelled k - n, unsorted, one repeated) right
+    after construction and after an extend — the defect fixed by normalising the indices in `__delitem__`"""
+    rng = ctx.rng
+    batch = []
+    for _ in range(count):
+        tg = Tagger()
+        a = rand_struct(rng, tg, nmax=6, term_density=2)
+        while len(a["atoms"]) < 2 or not any(a["terms"][k] for k in KINDS):
+            a = rand_struct(rng, tg, nmax=6, term_density=2)
+        n = len(a["atoms"])
+        pos = rng.sample(range(n), rng.randint(1, n - 1))
+        idx = [p - n for p in pos] + [rng.choice(pos) - n]
+        ops = [{"k": "construct", "dst": 0, "a": a}, {"k": "copy", "src": 0, "dst": 1},
+               {"k": "delete", "slot": 0, "idx": idx}, {"k": "delete", "slot": 1, "idx": [-1]},
+               {"k": "pop", "slot": 1, "i": -n - 2}]
+        h = {"op": "hist", "init": [None] * NSLOTS, "ops": ops, "dump": "full"}
+        out, k, what = run_history(h["init"], h["ops"])
+        account(ctx, h, out, k, what, "negative-delete")
+        batch.append((h, out))
+    if compare:
+        compare_batch(ctx, batch)
+
+
 # =============================================================================================== entry points
 
 def run(ctx, oracle_only=False):
@@ -1490,6 +1561,7 @@ def run(ctx, oracle_only=False):
     stream_directed(ctx, cmp_)
     stream_misaligned(ctx, ctx.n(4, 30), cmp_)
     stream_aliasing(ctx, ctx.n(30, 300), cmp_)
+    stream_negative_delete(ctx, ctx.n(6, 60), cmp_)
     pairs = pool_pairs(ctx, ctx.quick())
     if ctx.quick():
         stream_exhaustive(ctx, 2, pairs, limit=ctx.n(300, None), compare=cmp_)
@@ -1509,17 +1581,24 @@ def run(ctx, oracle_only=False):
         ext_construct.run_stream(ctx)
 
 
+def _unknown_failures(ctx):
+    """failures that are not the (tagged) reproduction of a known finding"""
+    return [f for f in ctx.failures if MISALIGNED_TAG not in f.get("tags", [])]
+
+
 def search(ctx):
     """oracle only (real code only), larger budget"""
     ctx.rule = RULE
     stream_directed(ctx, False)
     stream_misaligned(ctx, 10, False)
     stream_aliasing(ctx, 150, False)
+    stream_negative_delete(ctx, 30, False)
     pairs = pool_pairs(ctx, False)
-    stream_exhaustive(ctx, 2, pairs, limit=None, compare=False)
-    if not ctx.failures:
+    if not _unknown_failures(ctx):
         stream_random(ctx, 600, 20, 40, False)
-    if not ctx.failures:
+    if not _unknown_failures(ctx):
+        stream_exhaustive(ctx, 2, pairs, limit=None, compare=False)
+    if not _unknown_failures(ctx):
         stream_exhaustive(ctx, 3, pairs, limit=3000, compare=False)
 
 
